@@ -101,11 +101,14 @@ Definition oobs_of (r : res op_res) : oobs :=
 
 (* ---- the property on an answer of GetClosestPeers ----------------------- *)
 Definition has_group (c : crawl) (g p : N) : bool := peer_in_group c g p.
-Definition all_groups (c : crawl) : list N := flat_map (fun x => addr_groups (snd x)) c.
-(* no IP group holds more crawled peers than the limit, or the limit is off *)
+Fixpoint dedup_N (l : list N) : list N :=
+  match l with [] => [] | x :: r => if nmem x r then dedup_N r else x :: dedup_N r end.
+Definition all_groups (c : crawl) : list N := dedup_N (flat_map (fun x => addr_groups (snd x)) c).
+(* no IP group holds more crawled peers than the limit, or the limit is off
+   (peers are pairwise different, so counting entries counts peers) *)
 Definition diverse (c : crawl) (limit : nat) : bool :=
   (limit =? 0) ||
-  forallb (fun g => length (filter (has_group c g) (map fst c)) <=? limit) (all_groups c).
+  forallb (fun g => length (filter (fun x => nmem g (addr_groups (snd x))) c) <=? limit) (all_groups c).
 Fixpoint strictly_ascending (key : N) (l : list N) : bool :=
   match l with
   | x :: ((y :: _) as r) => N.ltb (dist key x) (dist key y) && strictly_ascending key r
@@ -187,7 +190,7 @@ Fixpoint rounds_verdict (bootstrap : list (N * bool)) (peers : list (N * pinfo))
             nlist_eqb (sort_N seed_ids) (r_seeds r) && nlist_eqb (sort_N (c_disp s)) (r_disp r)
             && list_eqb cb_eqb (sort_cb (c_cb s)) (r_cb r)
             && nlist_eqb (sort_N (map fst found')) (r_table r)
-            && cobs_eqb (cobs_of (get_closest (table_of found') (r_key r) K limit)) (r_read r) in
+            && cobs_eqb (cobs_of (get_closest_eval (table_of found') (r_key r) K limit)) (r_read r) in
           if negb agree then 2
           else
             let v_read := closest_verdict found' (r_key r) K limit (r_read r) (r_read r) in
@@ -208,10 +211,10 @@ Definition swap_verdict (old new : crawl) (key : N) (K limit : nat)
   let t0 := table_of old in
   let t1 := swap_addrs t0 new in
   let t2 := swap_kmap t1 new in
-  let m0 := cobs_of (get_closest t0 key K limit) in
-  let m1 := cobs_of (get_closest t1 key K limit) in
-  let m2 := cobs_of (get_closest t2 key K limit) in
-  let m3 := cobs_of (get_closest (table_of new) key K limit) in
+  let m0 := cobs_of (get_closest_eval t0 key K limit) in
+  let m1 := cobs_of (get_closest_eval t1 key K limit) in
+  let m2 := cobs_of (get_closest_eval t2 key K limit) in
+  let m3 := cobs_of (get_closest_eval (table_of new) key K limit) in
   let agree := cobs_eqb m0 impl0 && cobs_eqb m1 impl1 && cobs_eqb m3 impl3
                && match impl2 with Some i2 => cobs_eqb m2 i2 | None => true end in
   if negb agree then 2
@@ -234,7 +237,7 @@ Definition single_verdict (c : crawl) (K limit : nat) (key : N) (impl : oobs) : 
   match impl with
   | OOPanic => 2
   | OOHang => if oobs_eqb m impl then (if (K =? 0) && (limit =? 0) then 11 else 4) else 2
-  | ONil => if oobs_eqb m impl then (match c with [] => 4 | _ => 0 end) else 2
+  | ONil => if oobs_eqb m impl then (match c with [] => 4 | _ => if K =? 0 then 16 else 0 end) else 2
   | OError => if oobs_eqb m impl then 0 else 2
   end.
 
@@ -252,7 +255,7 @@ Definition ctor_verdict (o : opts) (dflt : nat) (c : crawl) (key : N)
   | Some f, Some (k, l) =>
       if negb ((f_K f =? k) && (f_limit f =? l)) then 2
       else
-        let m := cobs_of (get_closest (table_of c) key k l) in
+        let m := cobs_of (get_closest_eval (table_of c) key k l) in
         if negb (cobs_eqb m impl) then 2
         else
           let v := closest_verdict c key k l m impl in
@@ -264,10 +267,10 @@ Definition verdict (c : case) : nat :=
   match c with
   | CClosest1 c key K limit impl =>
       if nodupb (map fst c)
-      then closest_verdict c key K limit (cobs_of (get_closest (table_of c) key K limit)) impl
+      then closest_verdict c key K limit (cobs_of (get_closest_eval (table_of c) key K limit)) impl
       else 2
   | CClosest rt kmap addrs key K limit impl =>
-      let m := cobs_of (get_closest {| t_rt := rt; t_kmap := kmap; t_addrs := addrs |} key K limit) in
+      let m := cobs_of (get_closest_eval {| t_rt := rt; t_kmap := kmap; t_addrs := addrs |} key K limit) in
       if is_single_crawl rt kmap addrs then closest_verdict addrs key K limit m impl
       else if cobs_eqb m impl then 0
       else match impl with OPanic | OHang => 2 | _ => 1 end
